@@ -109,6 +109,17 @@ func (engC02) Gen(r *Rng, s *Script, idx int, tier string) {
 	}
 	s.Config["steps"] = n
 	ctr := 0
+	if r.Chance(1, 60) {
+		// a row wider than a byte can count
+		wide := make([]Item, []int{255, 256, 257, 300}[r.Intn(4)])
+		for i := range wide {
+			ctr++
+			wide[i] = Item{K: "i", N: 9000 + ctr}
+		}
+		s.Config["wide_row"] = len(wide)
+		s.Steps = append(s.Steps, Step{Op: "rowItems", Items: wide})
+		n = r.Range(0, 4)
+	}
 	renders := r.Chance(1, 4) // structure must also survive whatever a renderer does
 	for i := 0; i < n; i++ {
 		if renders && r.Chance(1, 5) {
